@@ -156,10 +156,15 @@ def parseEv (line : String) : Ev :=
   | t :: "r" :: "info" :: rows =>
     let rs := rows.map parseRow
     if rs.all Option.isSome then orBad do some (.info (← t.toInt?) (rs.filterMap id)) else .malformed line
-  | "err" :: _ => .note line
+  -- the only LPC errors a history can contain: error("boom ...") of a script and the function-pointer owner error;
+  -- any other error text (e.g. an efun returning a malformed value to the LPC side) is an unexpected line
+  | "err" :: "*boom" :: _ => .note line
+  | ["err", "*fp-owner-destructed"] => .note line
   | ["r", _, "do_op", "!err"] => .note line
   | ["r", _, "do_op", "!destructed"] => .note line
   | ["r", _, "set_script", "!destructed"] => .note line
+  -- the case names an object it never cloned (only shrunk cases do): says nothing about the driver
+  | ["r", _, _, "!noobj"] => .note line
   | "crash" :: _ => .crash line
   | "sanitizer" :: _ => .sanitizer line
   | [] => .note line
